@@ -93,6 +93,7 @@ type respWalker struct {
 	resolvedCom map[*ssa.Call]*ssa.CallCommon
 	globals     map[*ssa.Global]*robj
 	enumMode    map[string]string
+	relevantFn  map[*ssa.Function]int // 0 unknown, 1 relevant to the response logic, 2 not
 }
 
 type rFrame struct {
@@ -669,6 +670,10 @@ func (rw *respWalker) call(fr *rFrame, pt *rPath, c *ssa.Call, depth int) {
 	// functions of the handler's own package are walked
 	rw.resolved[c] = callee
 	if callee != nil && callee.Blocks != nil && (callee.Pkg == rw.pkg || (callee.Pkg == nil && callee.Origin() != nil && callee.Origin().Pkg == rw.pkg)) && depth < 6 {
+		if !rw.relevant(callee) {
+			fr.env[c] = rval{k: rvOther} // a pure helper over plain data: opaque
+			return
+		}
 		fr.env[c] = rval{k: rvOther, origin: "__forked__"}
 		return
 	}
@@ -701,6 +706,110 @@ func (rw *respWalker) call(fr *rFrame, pt *rPath, c *ssa.Call, depth int) {
 			fr.env[c] = rval{k: rvOther}
 		}
 	}
+}
+
+// relevant: can walking into fn tell anything about the response? Yes if its signature carries the response writer, the
+// request, an error, a function value or a type of the handler's package, or if its body (or an in-package callee's)
+// contains a step (body read, decode, prove, encode), an interface call, a closure, package-level state or a call into
+// another repository package. A pure helper over plain data — a fingerprint of the body for a log line, a size
+// computation — is none of that; it is left opaque instead of being walked, so that its loops and branches are not taken
+// for loops and branches of the response logic.
+func (rw *respWalker) relevant(fn *ssa.Function) bool {
+	if rw.relevantFn == nil {
+		rw.relevantFn = map[*ssa.Function]int{}
+	}
+	switch rw.relevantFn[fn] {
+	case 1:
+		return true
+	case 2:
+		return false
+	}
+	rw.relevantFn[fn] = 1 // recursion: assume relevant
+	mentions := func(t types.Type) bool {
+		if isRespWriterType(t) || isNamed(t, "net/http", "Request") || isNamed(t, "net/http", "Handler") || isErrorType(t) {
+			return true
+		}
+		switch types.Unalias(t).Underlying().(type) {
+		case *types.Signature, *types.Interface, *types.Chan:
+			return true
+		}
+		if n := namedOf(t); n != nil && n.Obj().Pkg() != nil && rw.pkg != nil && n.Obj().Pkg() == rw.pkg.Pkg {
+			return true // a type of the handler's own package (the handler, its configuration, an error descriptor)
+		}
+		if rw.psT != nil && namedOf(t) == rw.psT {
+			return true
+		}
+		return false
+	}
+	rel := false
+	sig := fn.Signature
+	if sig.Recv() != nil && mentions(sig.Recv().Type()) {
+		rel = true
+	}
+	for i := 0; i < sig.Params().Len() && !rel; i++ {
+		rel = mentions(sig.Params().At(i).Type())
+	}
+	for i := 0; i < sig.Results().Len() && !rel; i++ {
+		rel = mentions(sig.Results().At(i).Type())
+	}
+	if len(fn.FreeVars) > 0 {
+		rel = true
+	}
+	for _, b := range fn.Blocks {
+		if rel {
+			break
+		}
+		for _, in := range b.Instrs {
+			switch x := in.(type) {
+			case *ssa.MakeClosure, *ssa.Go, *ssa.Defer, *ssa.Panic, *ssa.Send, *ssa.Select:
+				rel = true
+			case *ssa.UnOp:
+				if x.Op == token.ARROW {
+					rel = true
+				}
+				if g, ok := x.X.(*ssa.Global); ok && g.Pkg != nil && g.Pkg == rw.pkg {
+					rel = true // reads package-level state of the handler's package
+				}
+			case *ssa.Store:
+				if _, ok := x.Addr.(*ssa.Global); ok {
+					rel = true
+				}
+			case ssa.CallInstruction:
+				com := x.Common()
+				if com.IsInvoke() || rw.stepKind(com) != "" {
+					rel = true
+					break
+				}
+				sc := com.StaticCallee()
+				if sc == nil {
+					if _, isB := com.Value.(*ssa.Builtin); !isB {
+						rel = true
+					}
+					break
+				}
+				for _, a := range com.Args {
+					if mentions(a.Type()) {
+						rel = true
+					}
+				}
+				if sc.Blocks != nil && sc.Pkg == rw.pkg && rw.relevant(sc) {
+					rel = true
+				}
+				if sc.Pkg != nil && core.InRepo(sc.Pkg.Pkg.Path()) && sc.Pkg != rw.pkg {
+					rel = true // other repository packages (prover, logging): keep today's treatment
+				}
+			}
+			if rel {
+				break
+			}
+		}
+	}
+	if rel {
+		rw.relevantFn[fn] = 1
+	} else {
+		rw.relevantFn[fn] = 2
+	}
+	return rel
 }
 
 func (rw *respWalker) isProofValue(v ssa.Value) bool {
